@@ -234,6 +234,34 @@ func c03Run(b *core.B) {
 			b.NonTrivialStr(lad)
 		}
 	}
+	// (5) the same shapes 1.5 million deep: an error or a template, not a dead process;
+	// a template that comes back is also executed and printed (both walk the tree)
+	for _, lad := range c03DeepLadders(1500000) {
+		li++
+		if !b.Mine(li) {
+			continue
+		}
+		if !b.Begin(fmt.Sprintf("deep ladder: %.40q... (%d bytes)", lad, len(lad))) {
+			continue
+		}
+		b.Count("deep-ladder")
+		b.NonTrivialStr(lad[:40], "deep")
+		var t *plush.Template
+		var err error
+		pan := core.Guard(func() { t, err = plush.NewTemplate(lad) })
+		if pan != nil {
+			b.Violate("deep-ladder|"+pan.Sig(), pan.Value)
+			continue
+		}
+		if err == nil && t != nil {
+			b.Count("deep-ladder:parsed")
+			if pan := core.Guard(func() { _, _ = t.Exec(plush.NewContext()) }); pan != nil {
+				b.Violate("deep-ladder-exec|"+pan.Sig(), pan.Value)
+			}
+		} else {
+			b.Count("deep-ladder:rejected")
+		}
+	}
 }
 
 func mutateBytes(r *core.Rng, c string) string {
@@ -321,8 +349,32 @@ func c03Ladders(d int) []string {
 		"<% " + rep("}", d) + " %>",
 		"<% " + rep("else ", d) + " %>",
 		"<% " + rep("x = ", d) + "1 %>",
+		"<% " + rep("# c\n", d) + "1 %>",
+		"<% " + rep("# c\n\n", d) + "%>",
 	}
 	return out
+}
+
+// c03DeepLadders: the shapes whose parse (or evaluation, or printing) recurses
+// once per repetition, at a depth that no stack survives.
+func c03DeepLadders(d int) []string {
+	rep := strings.Repeat
+	return []string{
+		"<%= " + rep("(", d) + "1" + rep(")", d) + " %>",
+		"<%= " + rep("(", d),
+		"<%= " + rep("[", d) + " %>",
+		"<%= " + rep("{a: ", d) + " %>",
+		"<%= " + rep("!", d) + "true %>",
+		"<%= x" + rep("[0]", d) + " %>",
+		"<%= f" + rep("()", d) + " %>",
+		"<%= a" + rep(".b", d) + " %>",
+		"<%= 1 " + rep("+ 1 ", d) + "%>",
+		"<% " + rep("if (true) { ", d) + "%>",
+		"<% let f = " + rep("fn() { return ", d) + "1 %>",
+		"<% " + rep("# c\n", d) + "1 %>",
+		"<% " + rep("x = ", d) + "1 %>",
+		"<% " + rep("return ", d) + "1 %>",
+	}
 }
 
 var c03CorpusCache []string
@@ -388,7 +440,7 @@ func init() {
 		ID:    "C03",
 		Level: "exploration",
 		Rule: "inputs = (1) every sequence of 0..k lexemes (k=3 quick, 4 thorough) over a " + fmt.Sprint(len(c03Vocab)) +
-			"-lexeme vocabulary in 8 tag framings, enumerated exhaustively; (2) random token soup of 1..60 lexemes; (3) every truncation plus random byte mutations of all template literals found in /repo/**/*_test.go; (4) nesting ladders of 41 shapes to depth 256 (2048 thorough). " +
+			"-lexeme vocabulary in 8 tag framings, enumerated exhaustively; (2) random token soup of 1..60 lexemes; (3) every truncation plus random byte mutations of all template literals found in /repo/**/*_test.go; (4) nesting ladders of 43 shapes to depth 256 (2048 thorough); (5) 14 of those shapes 1.5 million deep, parsed and, when a template comes back, executed (the worker stack limit is 256 MB, so unbounded recursion kills the worker and is reported as a process-level finding). " +
 			"Each input is given to parser.Parse (and plush.NewTemplate for 2-4) under recover with the H1 lexer-step budget. Every input reaches the parser, so non-trivial = distinct input string (enumerated inputs are distinct by construction, random ones are counted by hash).",
 		Assume:     []string{"H1 budget 64*len+4096 lexer steps is far above what a terminating parse needs (max observed ratio on the repo's templates: 1.6)", "inputs containing NUL are not generated (lexer EOF sentinel)"},
 		Batches:    batchesQT(32, 128),
